@@ -20,11 +20,32 @@
   allocation (Model/RdbAlloc):
     c04alloc <step> <n> <avail>          →  <len(p)> ok | err        ReadBytes(n) over a source of avail bytes
     c04lzf <outlen> <inlen>              →  alloc | refused          (kept for replays; the harness monitors the allocation instead)
+
+  session 4 — the EXTENDED grammar (Model/RdbFrameX.parseX: LZF strings, streams, modules, module-aux, text floats,
+  split hashes). <maxbuf> = the chunk threshold the real loader ran with, <aux> = 1 when it ran with failOnModuleAux;
+  the optional last token `fl=<hextext>:<0|1>,…` is the verdict of Go's strconv.ParseFloat on every text of the
+  input that could be a float at all (non-empty, float alphabet only) — `Cfg.floatOk`; a text outside the table makes
+  the outcome `u`:
+    c04xparse <maxver> <maxbuf> <aux> <hexfile> [fl=…]          →  <tok>
+    c04xtrunc <maxver> <maxbuf> <aux> <hexfile> [fl=…]          →  <tok>,…   every prefix
+    c04xxor   <maxver> <maxbuf> <aux> <hexfile> <pos> [fl=…]    →  <tok>,…   masks 1 … 255
+    c04xset   <maxver> <maxbuf> <aux> <hexfile> <pos> <hexvalues> [fl=…]  →  <tok>,…   byte <pos> overwritten with each value
+    c04xchan  <maxver> <maxbuf> <aux> <hexfile> [fl=…]          →  transcript
+  the LZF reader with its output buffer (Model/RdbLzf.run); <measured> = bytes the real reader allocated
+  (runtime.MemStats.TotalAlloc) — judged against the model's requests (first make + per growth a chunk and a
+  re-allocation of at most twice the need) + the compressed bytes + 256 KiB:
+    c04lzfx   <step> <outlen> <hexin> <measured>                      →  ok <len> | err ,  within | EXCEEDS:<bound>
+    c04lzfseg <step> <outlen> <hex>*<count>,<hex>*<count>,… <measured>     (input = the segments, each repeated)
+  the fan-out with the cluster-only global lane (Model/RdbFanoutG.withGlobal), glob = 0|1 per entry:
+    c04fang n=<keyed workers> c0= cw= routes= glob=<g,g,…> term= scen=    →  res= cp=
 -/
 import GunYu.Model.RdbFrame
 import GunYu.Model.RdbFanout
 import GunYu.Model.RdbAlloc
 import GunYu.Model.RdbFeed
+import GunYu.Model.RdbFrameX
+import GunYu.Model.RdbLzf
+import GunYu.Model.RdbFanoutG
 namespace GunYu.Drive.C04
 open GunYu
 
@@ -68,7 +89,7 @@ def natList? (s : String) : Option (List Nat) :=
   if s == "." then some [] else (s.splitOn ",").mapM String.toNat?
 
 open RdbFanout in
-def fan (toks : List String) : Option String := do
+def fan (global : Bool) (toks : List String) : Option String := do
   let n ← (← kv toks "n").toNat?
   let c0 ← (← kv toks "c0").toNat?
   let cw ← (← kv toks "cw").toNat?
@@ -76,7 +97,9 @@ def fan (toks : List String) : Option String := do
   let term ← kv toks "term"
   let scen ← kv toks "scen"
   -- entry a = its index; route a = routes[a]
-  let c : Cfg Nat := { n := n, cap0 := c0, capW := cw, route := fun a => routes.getD a 0 }
+  let c0' : Cfg Nat := { n := n, cap0 := c0, capW := cw, route := fun a => routes.getD a 0 }
+  let globs ← if global then natList? (← kv toks "glob") else some []
+  let c : Cfg Nat := if global then withGlobal c0' (fun a => globs.getD a 0 == 1) else c0'
   let t : Term := if term == "done" then .done else .err
   let items : List (Item Nat) := (List.range routes.length).map Item.entry ++ [Item.term t]
   let rounds := 4 * routes.length + 12
@@ -98,6 +121,57 @@ def fan (toks : List String) : Option String := do
     | some .ok => "ok" | some .err => "err" | none => "none"
   pure s!"res={res} cp={if sEnd.checkpoint then 1 else 0}"
 
+/-- bytes that can occur in a text strconv.ParseFloat accepts (decimal and hexadecimal floats, inf / infinity / nan) -/
+def floatAlphabet (b : UInt8) : Bool :=
+  (48 ≤ b && b ≤ 57) || (97 ≤ b && b ≤ 102) || (65 ≤ b && b ≤ 70) ||
+  [43, 45, 46, 95, 120, 88, 112, 80, 105, 73, 110, 78, 116, 84, 121, 89].contains b
+
+/-- `Cfg.floatOk` of the driver: a text that cannot be a float is refused; otherwise the verdict of the real
+    strconv.ParseFloat carried by the op; a text the op does not list is not decided -/
+def floatDec (table : List (Bytes × Bool)) (bs : Bytes) : RdbFrameX.Dec :=
+  if bs.isEmpty || !(bs.all floatAlphabet) then .no
+  else match table.find? (fun p => p.1 == bs) with
+    | some (_, true) => .yes
+    | some (_, false) => .no
+    | none => .dunno
+
+def flTable (rest : List String) : Option (List (Bytes × Bool)) :=
+  match rest with
+  | [] => some []
+  | [t] =>
+    if t.startsWith "fl=" then
+      ((t.drop 3).toString.splitOn ",").mapM (fun e =>
+        match e.splitOn ":" with
+        | [h, v] => (Hex.decode h).map (fun b => (b, v == "1"))
+        | _ => none)
+    else none
+  | _ => none
+
+def xcfg (mb aux : String) (rest : List String) : Option RdbFrameX.Cfg := do
+  let mb ← mb.toNat?
+  let tb ← flTable rest
+  pure { maxBuf := mb, failAux := aux == "1", floatOk := floatDec tb }
+
+def growDouble (c m : Nat) : Nat := 2 * max c m
+
+/-- "hex*count,hex*count,…" (a segment without "*count" counts once) -/
+def segBytes (s : String) : Option Bytes :=
+  (s.splitOn ",").foldlM (fun acc sg =>
+    match sg.splitOn "*" with
+    | [h] => (Hex.decode h).map (fun b => acc ++ b)
+    | [h, n] => do
+      let b ← Hex.decode h
+      let n ← n.toNat?
+      pure (acc ++ (List.replicate n b).flatten)
+    | _ => none) []
+
+def lzfLine (step outlen : Nat) (inp : Bytes) (measured : Nat) : String :=
+  let r := RdbLzf.run step inp outlen
+  let q := RdbLzf.requests growDouble step inp outlen
+  let bound := q.2 + inp.length + 262144
+  let res := if r.ok then s!"ok {r.o}" else "err"
+  res ++ (if measured ≤ bound then " within" else s!" EXCEEDS:{bound}")
+
 def handle : List String → Option (List String)
   | ["c04parse", mv, h] =>
     match mv.toNat?, Hex.decode h with
@@ -117,7 +191,8 @@ def handle : List String → Option (List String)
           tok (RdbFrame.parse mv (setByte f p (b ^^^ UInt8.ofNat (m + 1))))))]
       | none => some ["bad-op"]
     | _, _, _ => some ["bad-op"]
-  | "c04fan" :: toks => some [(fan toks).getD "bad-op"]
+  | "c04fan" :: toks => some [(fan false toks).getD "bad-op"]
+  | "c04fang" :: toks => some [(fan true toks).getD "bad-op"]
   -- c04chan <maxver> <hexfile>: the whole channel transcript of the parser goroutine: <entries>:<E|D>,…  or u
   | ["c04chan", mv, h] =>
     match mv.toNat?, Hex.decode h with
@@ -139,6 +214,44 @@ def handle : List String → Option (List String)
     match outlen.toNat?, inlen.toNat? with
     | some o, some i => some [if (RdbAlloc.lzfAlloc (Int.ofNat o) i).isSome then "alloc" else "refused"]
     | _, _ => some ["bad-op"]
+  | "c04xparse" :: mv :: mb :: aux :: h :: rest =>
+    match xcfg mb aux rest, mv.toNat?, Hex.decode h with
+    | some cfg, some mv, some f => some [tok (RdbFrameX.parseX cfg mv f)]
+    | _, _, _ => some ["bad-op"]
+  | "c04xtrunc" :: mv :: mb :: aux :: h :: rest =>
+    match xcfg mb aux rest, mv.toNat?, Hex.decode h with
+    | some cfg, some mv, some f =>
+      some [",".intercalate ((List.range (f.length + 1)).map (fun k => tok (RdbFrameX.parseX cfg mv (f.take k))))]
+    | _, _, _ => some ["bad-op"]
+  | "c04xxor" :: mv :: mb :: aux :: h :: pos :: rest =>
+    match xcfg mb aux rest, mv.toNat?, Hex.decode h, pos.toNat? with
+    | some cfg, some mv, some f, some p =>
+      match f[p]? with
+      | some b =>
+        some [",".intercalate ((List.range 255).map (fun m =>
+          tok (RdbFrameX.parseX cfg mv (setByte f p (b ^^^ UInt8.ofNat (m + 1))))))]
+      | none => some ["bad-op"]
+    | _, _, _, _ => some ["bad-op"]
+  | "c04xchan" :: mv :: mb :: aux :: h :: rest =>
+    match xcfg mb aux rest, mv.toNat?, Hex.decode h with
+    | some cfg, some mv, some f =>
+      match RdbFrameX.chanS (RdbFrameX.itemS cfg) none mv f with
+      | some (n, ts) => some [s!"{n}:" ++ ",".intercalate (ts.map (fun t => match t with | .done => "D" | .err => "E"))]
+      | none => some ["u"]
+    | _, _, _ => some ["bad-op"]
+  | ["c04lzfx", step, outlen, h, measured] =>
+    match step.toNat?, outlen.toNat?, Hex.decode h, measured.toNat? with
+    | some step, some outlen, some inp, some m => some [lzfLine step outlen inp m]
+    | _, _, _, _ => some ["bad-op"]
+  | ["c04lzfseg", step, outlen, segs, measured] =>
+    match step.toNat?, outlen.toNat?, segBytes segs, measured.toNat? with
+    | some step, some outlen, some inp, some m => some [lzfLine step outlen inp m]
+    | _, _, _, _ => some ["bad-op"]
+  | "c04xset" :: mv :: mb :: aux :: h :: pos :: vals :: rest =>
+    match xcfg mb aux rest, mv.toNat?, Hex.decode h, pos.toNat?, Hex.decode vals with
+    | some cfg, some mv, some f, some p, some vs =>
+      some [",".intercalate (vs.map (fun v => tok (RdbFrameX.parseX cfg mv (setByte f p v))))]
+    | _, _, _, _, _ => some ["bad-op"]
   | _ => none
 
 end GunYu.Drive.C04
